@@ -121,34 +121,7 @@ mut("c03-verify-empty-true", ["C03"], [(BM, '''	lastHeader := cfheaders.PrevFilt
 	}
 
 	return lastHeader == *nextCheckpoint''')], ["C03.G3"])
-mut("c03-rollback-block-first", ["C03"], [(BM, '''		// Only roll back filter headers if they've caught up this far.
-		if uint32(bs.Height) <= regHeight {
-			newFilterTip, err := b.cfg.RegFilterHeaders.RollbackLastBlock(newTip)
-			if err != nil {
-				return err
-			}
-			regHeight = uint32(newFilterTip.Height)
-		}
-
-		bs, err = b.cfg.BlockHeaders.RollbackLastBlock()
-		if err != nil {
-			return err
-		}
-''', '''		oldHeight := uint32(bs.Height)
-		bs, err = b.cfg.BlockHeaders.RollbackLastBlock()
-		if err != nil {
-			return err
-		}
-
-		// Only roll back filter headers if they've caught up this far.
-		if oldHeight <= regHeight {
-			newFilterTip, err := b.cfg.RegFilterHeaders.RollbackLastBlock(newTip)
-			if err != nil {
-				return err
-			}
-			regHeight = uint32(newFilterTip.Height)
-		}
-''')], ["C03.O2"])
+mut("c03-rollback-block-first", ["C03"], [(BM, "\t\t// Only roll back filter headers if they've caught up this far.\n\t\tif uint32(bs.Height) <= regHeight {\n\t\t\tnewFilterTip, err := b.cfg.RegFilterHeaders.RollbackLastBlock(newTip)\n\t\t\tif err != nil {\n\t\t\t\treturn err\n\t\t\t}\n\t\t\tregHeight = uint32(newFilterTip.Height)\n\n\t\t\t// Keep the in-memory filter header tip in step with\n\t\t\t// the store, as writeCFHeadersMsg does when it extends\n\t\t\t// it. It bounds the backlog handed to new block\n\t\t\t// subscribers, which would otherwise ask the store for\n\t\t\t// heights that no longer exist.\n\t\t\tb.newFilterHeadersMtx.Lock()\n\t\t\tb.filterHeaderTip = regHeight\n\t\t\tb.filterHeaderTipHash = *newTip\n\t\t\tb.newFilterHeadersMtx.Unlock()\n\t\t}\n\n\t\tbs, err = b.cfg.BlockHeaders.RollbackLastBlock()\n\t\tif err != nil {\n\t\t\treturn err\n\t\t}\n", "\t\toldHeight := uint32(bs.Height)\n\t\tbs, err = b.cfg.BlockHeaders.RollbackLastBlock()\n\t\tif err != nil {\n\t\t\treturn err\n\t\t}\n\n\t\t// Only roll back filter headers if they've caught up this far.\n\t\tif oldHeight <= regHeight {\n\t\t\tnewFilterTip, err := b.cfg.RegFilterHeaders.RollbackLastBlock(newTip)\n\t\t\tif err != nil {\n\t\t\t\treturn err\n\t\t\t}\n\t\t\tregHeight = uint32(newFilterTip.Height)\n\n\t\t\t// Keep the in-memory filter header tip in step with\n\t\t\t// the store, as writeCFHeadersMsg does when it extends\n\t\t\t// it. It bounds the backlog handed to new block\n\t\t\t// subscribers, which would otherwise ask the store for\n\t\t\t// heights that no longer exist.\n\t\t\tb.newFilterHeadersMtx.Lock()\n\t\t\tb.filterHeaderTip = regHeight\n\t\t\tb.filterHeaderTipHash = *newTip\n\t\t\tb.newFilterHeadersMtx.Unlock()\n\t\t}\n\n")], ["C03.O2"])
 mut("c03-rollback-lt", ["C03"], [(BM, "if uint32(bs.Height) <= regHeight {", "if uint32(bs.Height) < regHeight {")], ["C03.O2"])
 mut("c03-uncheckpointed-keep-banned", ["C03"], [(BM, '''				if err != nil {
 					log.Errorf("Unable to ban peer %v: %v",
